@@ -185,9 +185,55 @@ func rulesChipState(cx *Ctx, prop string) []Obligation {
 		}
 		return "", false
 	}
+	// constructors and the unexported helpers only constructors call (a constructor split into steps)
+	ctor := map[*ssa.Function]bool{}
+	callers := map[*ssa.Function][]*ssa.Function{}
+	valueUse := map[*ssa.Function]bool{}
+	for _, fn := range P.ModuleFuncsSorted() {
+		if strings.HasPrefix(fn.Name(), "New") {
+			ctor[fn] = true
+		}
+		for _, b := range fn.Blocks {
+			for _, ins := range b.Instrs {
+				if c, ok := ins.(ssa.CallInstruction); ok {
+					if g := c.Common().StaticCallee(); g != nil {
+						callers[g] = append(callers[g], fn)
+					}
+				}
+				for _, op := range ins.Operands(nil) {
+					if op == nil || *op == nil {
+						continue
+					}
+					if g, ok := (*op).(*ssa.Function); ok {
+						if c, isCall := ins.(ssa.CallInstruction); !isCall || c.Common().Value != ssa.Value(g) {
+							valueUse[g] = true
+						}
+					}
+				}
+			}
+		}
+	}
+	for changed := true; changed; {
+		changed = false
+		for _, fn := range P.ModuleFuncsSorted() {
+			if ctor[fn] || valueUse[fn] || len(callers[fn]) == 0 || (fn.Object() != nil && fn.Object().Exported()) {
+				continue
+			}
+			all := true
+			for _, c := range callers[fn] {
+				if !ctor[c] {
+					all = false
+				}
+			}
+			if all {
+				ctor[fn] = true
+				changed = true
+			}
+		}
+	}
 	n := 0
 	for _, fn := range P.ModuleFuncsSorted() {
-		if !circuitPackage(fn) || isInitFn(fn) || len(fn.Blocks) == 0 || strings.HasPrefix(fn.Name(), "New") {
+		if !circuitPackage(fn) || isInitFn(fn) || len(fn.Blocks) == 0 || ctor[fn] {
 			continue
 		}
 		n++
@@ -231,10 +277,20 @@ func rulesChipState(cx *Ctx, prop string) []Obligation {
 func withState(prop string, f func(cx *Ctx) []Obligation) func(cx *Ctx) []Obligation {
 	return func(cx *Ctx) []Obligation {
 		obs := f(cx)
-		obs = append(obs, rulesGlobalState(cx, prop)...)
-		obs = append(obs, rulesChipState(cx, prop)...)
+		obs = append(obs, rulesHygiene(cx, prop)...)
 		return obs
 	}
+}
+
+// rulesHygiene: the circuit definition is a function of its inputs — no hidden state, no builder-dependent fast
+// path, no append that reaches into the caller's data
+func rulesHygiene(cx *Ctx, prop string) []Obligation {
+	var obs []Obligation
+	obs = append(obs, rulesGlobalState(cx, prop)...)
+	obs = append(obs, rulesChipState(cx, prop)...)
+	obs = append(obs, ruleNoConstantFastPath(cx, prop)...)
+	obs = append(obs, ruleNoAliasingAppend(cx, prop)...)
+	return obs
 }
 
 // ruleNoRecover: refusals are panics (and gnark's builders report failed definition-time checks by panicking too);
@@ -265,4 +321,106 @@ func ruleNoRecover(cx *Ctx, prop string) []Obligation {
 		return []Obligation{bad(key, desc, "recover() at "+strings.Join(sites, "; "))}
 	}
 	return []Obligation{good(key, desc, "no recover() in the circuit packages")}
+}
+
+// ruleNoConstantFastPath: gnark's test engine answers Compiler().ConstantValue with "not a constant" for every
+// value, the real builders do not — a code path taken only for compile-time constants is therefore exercised by no
+// test of this repository and makes a gadget compute differently in the compiled circuit. None exists today.
+func ruleNoConstantFastPath(cx *Ctx, prop string) []Obligation {
+	P := cx.P
+	key := prop + "/NC/no-constant-fast-path"
+	desc := "no circuit code branches on Compiler().ConstantValue: a path taken only for compile-time constants is invisible to the test engine (which never reports a constant) and changes what the compiled circuit computes"
+	var sites []string
+	for _, fn := range P.ModuleFuncsSorted() {
+		if !circuitPackage(fn) {
+			continue
+		}
+		for _, b := range fn.Blocks {
+			for _, ins := range b.Instrs {
+				c, ok := ins.(ssa.CallInstruction)
+				if !ok || !c.Common().IsInvoke() || c.Common().Method == nil {
+					continue
+				}
+				m := c.Common().Method
+				if m.Name() == "ConstantValue" && m.Pkg() != nil && strings.HasPrefix(m.Pkg().Path(), "github.com/consensys/gnark/frontend") {
+					sites = append(sites, P.Pos(ins.Pos())+" in "+P.FnName(fn))
+				}
+			}
+		}
+	}
+	if len(sites) > 0 {
+		sort.Strings(sites)
+		return []Obligation{undecided(key, desc, "ConstantValue is consulted at "+strings.Join(sites, "; ")+" (cannot show both paths compute the same value)")}
+	}
+	return []Obligation{good(key, desc, "no use of ConstantValue in the circuit packages")}
+}
+
+// ruleNoAliasingAppend: append(x[a:b], …) writes into the backing array of x beyond b when capacity allows; if x is
+// data the function received (a parameter, a field of one) the caller's later elements are silently overwritten.
+func ruleNoAliasingAppend(cx *Ctx, prop string) []Obligation {
+	P := cx.P
+	key := prop + "/AP/no-aliasing-append"
+	desc := "no append onto a truncated view x[a:b] of data the function received: the appended elements would be written into the caller's backing array beyond b (later elements of the caller's list change silently)"
+	var rootedAtParam func(v ssa.Value, depth int) bool
+	rootedAtParam = func(v ssa.Value, depth int) bool {
+		if depth > 10 || v == nil {
+			return false
+		}
+		switch x := v.(type) {
+		case *ssa.Parameter:
+			return true
+		case *ssa.FieldAddr:
+			return rootedAtParam(x.X, depth+1)
+		case *ssa.Field:
+			return rootedAtParam(x.X, depth+1)
+		case *ssa.IndexAddr:
+			return rootedAtParam(x.X, depth+1)
+		case *ssa.Index:
+			return rootedAtParam(x.X, depth+1)
+		case *ssa.UnOp:
+			return rootedAtParam(x.X, depth+1)
+		case *ssa.Slice:
+			return rootedAtParam(x.X, depth+1)
+		case *ssa.Alloc:
+			// a local copy of a parameter
+			for _, r := range *x.Referrers() {
+				if st, ok := r.(*ssa.Store); ok && st.Addr == ssa.Value(x) {
+					if _, ok := st.Val.(*ssa.Parameter); ok {
+						return true
+					}
+				}
+			}
+		}
+		return false
+	}
+	var sites []string
+	for _, fn := range P.ModuleFuncsSorted() {
+		if !circuitPackage(fn) {
+			continue
+		}
+		for _, b := range fn.Blocks {
+			for _, ins := range b.Instrs {
+				c, ok := ins.(*ssa.Call)
+				if !ok {
+					continue
+				}
+				bi, ok := c.Common().Value.(*ssa.Builtin)
+				if !ok || bi.Name() != "append" || len(c.Common().Args) < 1 {
+					continue
+				}
+				sl, ok := c.Common().Args[0].(*ssa.Slice)
+				if !ok || sl.High == nil || sl.Max != nil {
+					continue
+				}
+				if rootedAtParam(sl.X, 0) {
+					sites = append(sites, P.Pos(ins.Pos())+" in "+P.FnName(fn))
+				}
+			}
+		}
+	}
+	if len(sites) > 0 {
+		sort.Strings(sites)
+		return []Obligation{bad(key, desc, "append onto a truncated view of received data at "+strings.Join(sites, "; "))}
+	}
+	return []Obligation{good(key, desc, "no such append in the circuit packages")}
 }
